@@ -64,7 +64,8 @@ MagClause(e) ==          \* e.sets : record charge-string -> record jn -> 7 coef
   LET z == e.z
       want == {<<k[2], k[3]>> : k \in MagKeys(z)}
       got == IF e.noattr THEN {} ELSE UNION {{<<q, jn>> : jn \in DOMAIN e.sets[ToString(q)]} : q \in {x \in -9..9 : ToString(x) \in DOMAIN e.sets}}
-  IN IF want # got THEN "MagneticChargeStatesAndOrders"
+  IN IF "charges" \in DOMAIN e /\ {e.charges[i] : i \in DOMAIN e.charges} # {k[1] : k \in want} THEN "MagneticChargeStates"
+     ELSE IF want # got THEN "MagneticChargeStatesAndOrders"
      ELSE IF \E k \in want : \A c \in mag[<<z, k[1], k[2]>>] : ~SeqIs(e.sets[ToString(k[1])][k[2]], c) THEN "MagneticCoefficients"
      ELSE "ok"
 CmClause(e) ==
@@ -74,6 +75,14 @@ CmClause(e) ==
            ELSE IF ~SeqIs(e.a, SubSeq(cm[k], 1, 5)) \/ ~NumIs(e.c, cm[k][6]) \/ ~SeqIs(e.b, SubSeq(cm[k], 7, 11)) THEN "CromerMannCoefficients"
            ELSE "ok")
      ELSE IF "exc" \in DOMAIN e THEN "ok" ELSE "NoCromerMannWithoutEntry"
+\* every route to f0 (symbol text, charge keyword, charge keyword over a valence suffix, the atom's own f0) reaches the same
+\* entry: all give the same number when the table has the entry, all fail when it has not
+CmRoutes(e) ==
+  IF "routes" \notin DOMAIN e THEN "ok"
+  ELSE LET r == e.routes  k == <<e.z, e.q>>
+       IN IF k \in DOMAIN cm
+          THEN (IF \E n \in DOMAIN r : r[n].k # "num" \/ r[n] # r.text THEN "FormFactorRoutesAgree" ELSE "ok")
+          ELSE (IF \E n \in DOMAIN r : r[n].k = "num" THEN "NoFormFactorWithoutEntry" ELSE "ok")
 \* form factor evaluation: A exp(-a s^2) + B exp(-b s^2) + C exp(-c s^2) + D, times s^2 for n > 0, s = Q / 4 pi
 S2(Q) == Div(Sq(Q), MulInt(Sq(Pi), 16), 14)
 FF(c, Q, n) == LET s2 == S2(Q)
@@ -121,7 +130,7 @@ Step ==
                /\ Emit(e.id, IF ElClause(e) # "ok" THEN ElClause(e) ELSE IF CsClause(e) # "ok" THEN CsClause(e) ELSE EmClause(e))
                /\ UNCHANGED <<cov, cryst, emis, mag, cm>>
           [] e.ev = "serve_mag" -> Emit(e.id, MagClause(e)) /\ UNCHANGED <<cov, cryst, emis, mag, cm>>
-          [] e.ev = "serve_cm" -> Emit(e.id, CmClause(e)) /\ UNCHANGED <<cov, cryst, emis, mag, cm>>
+          [] e.ev = "serve_cm" -> Emit(e.id, IF CmClause(e) # "ok" THEN CmClause(e) ELSE CmRoutes(e)) /\ UNCHANGED <<cov, cryst, emis, mag, cm>>
           [] e.ev = "eval_mag" -> Emit(e.id, EvalClause(e)) /\ UNCHANGED <<cov, cryst, emis, mag, cm>>
 TraceSpec == Init /\ [][Step]_vars
 Done == TLCGet("stats").diameter = Len(Log) /\ PrintT("@@" \o ToJson([summary |-> TRUE, events |-> Len(Log) - 1]))
